@@ -526,6 +526,11 @@ func (this *Writer) Write(block []byte) (int, error) {
 		return 0, &IOError{msg: "Stream closed", code: kanzi.ERR_WRITE_FILE}
 	}
 
+	if atomic.LoadInt32(&this.blockID) == _CANCEL_TASKS_ID {
+		// A previous block failed: the bitstream is incomplete
+		return 0, &IOError{msg: "Stream failed", code: kanzi.ERR_WRITE_FILE}
+	}
+
 	off := 0
 	remaining := len(block)
 
@@ -621,6 +626,11 @@ func (this *Writer) Close() error {
 func (this *Writer) processBlock() error {
 	if err := this.writeHeader(); err != nil {
 		return err
+	}
+
+	if atomic.LoadInt32(&this.blockID) == _CANCEL_TASKS_ID {
+		// A previous block failed: the bitstream is incomplete
+		return &IOError{msg: "Stream failed", code: kanzi.ERR_WRITE_FILE}
 	}
 
 	if this.available == 0 {
